@@ -133,6 +133,16 @@ pub fn build(p: &P) -> Cmd {
             Command::stream_from_shell(Op1::make(s.label, 0))
                 .then_stream(move |v| Command::stream_from_shell(Op2::make(t.label, Op1::val(v))))
                 .then_send(move |w| Event::got(t, Op2::val(w))))),
+        P::IntoFuture(s, n, t) => Command::new(move |ctx| async move {
+            let v = with_op!(s, Op => Op::val(Command::<Effect, Event>::request_from_shell(Op::make(s.label, 0)).into_future(ctx.clone()).await));
+            with_op!(n, Op => Command::<Effect, Event>::notify_shell(Op::make(n.label, v)).into_future(ctx.clone()).await);
+            with_op!(t, Op => {
+                let mut st = std::pin::pin!(Command::<Effect, Event>::stream_from_shell(Op::make(t.label, v)).into_stream(ctx.clone()));
+                while let Some(w) = st.next().await {
+                    ctx.send_event(Event::got(t, Op::val(w)));
+                }
+            });
+        }),
         P::Join(s, t) => Command::new(move |ctx| async move {
             let (v, w) = futures::join!(areq(&ctx, s, 0), areq(&ctx, t, 0));
             ctx.send_event(Event::got(s, v));
@@ -240,6 +250,8 @@ pub fn build(p: &P) -> Cmd {
         }
         P::Then(a, b) => build(&a).then(build(&b)),
         P::And(a, b) => build(&a).and(build(&b)),
+        // both spellings of `all`
+        P::All(v) if v.len() % 2 == 0 => v.iter().map(build).collect(),
         P::All(v) => Command::all(v.iter().map(build)),
         P::MapEffect(q) => build(&q).map_effect(tag_effect),
         P::MapEvent(q) => build(&q).map_event(Event::tagged),
